@@ -25,14 +25,21 @@ RULE = ("cases: (transaction class, transaction) pairs. Deterministic sweep: eve
         "first/middle/last position, totals reaching MAX / MAX+1, repeated outpoints incl. the same input object listed twice and (h,i)(h,j)(h,i), "
         "null and near-null outpoints incl. a coinbase-shaped first input followed by 1..1001 inputs, coinbase script lengths, stripped and total "
         "sizes 999,999 / 1,000,000 / 1,000,001 reached through one script, a witness item, 29,000 outputs or 5,000 inputs). Live histories: one "
-        "object of 253..5000 inputs edited one field at a time (and undone) between check() calls.")
+        "object of 253..5000 inputs edited one field at a time (and undone) between check() calls; fixed edit scripts in which every defect class "
+        "appears and disappears on one object and the null outpoint is made / unmade by editing only the index resp. only the hash. "
+        "Random transactions have a handful of elements (240..300 in about 3 % of them). Evidence: one counter per clause / quantifier item "
+        "(clause.*, expected_reject.*, matrix.<kind>.<defect>, purity_snapshot.<path>.elements_<class>, history.*), each required non-zero.")
 ASSUMPTIONS = [
     "'rejects' = check() raises any exception; 'accepts' = check() returns normally",
     "null outpoint = (32 zero bytes, index 2^32-1); coinbase = exactly one input and that input's outpoint is the null outpoint",
     "MAX = 21,000,000 * 10^8 for BTC/LTC/BCH/BTG classes and 105,000,000 * 10^8 for the Groestlcoin class (per-coin MAX_MONEY, as the "
     "property's quantifier says)",
-    "sizes are those of the reference serialisation (vmon/refs/txser.py, self-tested); a transaction without defects whose stripped size "
-    "is <= 1,000,000 but whose total size is larger is not decided by the statement: it is executed, counted, and never judged",
+    "sizes are those of the reference serialisation (vmon/refs/txser.py, self-tested), obtained by adding up its field sizes (sizes(); "
+    "compared with the reference's bytes in selftest() and for every transaction within 64 bytes of the limit); a transaction without defects "
+    "whose stripped size is <= 1,000,000 but whose total size is larger is not decided by the statement: it is executed, counted, and never judged",
+    "the statement is about transactions that exist: when the library refuses to construct the object (e.g. a negative output value), the case is "
+    "counted as construct.refused and not judged",
+    "'never counted as having unsigned inputs' = bad_solution_count() == 0, also when called with flags=",
     "is_coinbase() is compared with the statement's definition of a coinbase, since the statement's rules are phrased in terms of it",
     "'never modifies the transaction' is read on what a caller can see: as_bin() with and without witness data, id(), w_id(), the identity of the "
     "txs_in / txs_out / unspents lists, identity and order of their elements, and every field of every element; extra private attributes are not looked at",
@@ -74,6 +81,7 @@ def plan(tier, seed):
                {"kind": "sizeclass", "classes": [1, 2, 252, 253, 254, 1000, 1001], "full": True},
                {"kind": "sizekinds", "jobs": [["coinbase_29000out", "BTC", False], ["5000in", "GRS", False], ["segwit_29000out", "LTC", True]]},
                {"kind": "kinds", "jobs": [["manyin_segwit", "BTC", True], ["manyinout", "BTC", True]]},
+               {"kind": "kinds", "jobs": [["manyin", "LTC", True], ["manyin_sorted", "BCH", True]]},
                {"kind": "kinds", "jobs": [["manyout", "GRS", True], ["coinbase_manyout", "GRS", True]] + [[k, "BTC", False] for k in small]},
                {"kind": "kinds", "jobs": [[k, n, True] for n in ("GRS", "LTC", "BCH", "BTG") for k in small]},
                {"kind": "bighist", "sizes": [2000, 1001, 1001, 253], "steps": [7, 10, 10, 10]}]
@@ -100,7 +108,39 @@ def serialisable(d):
     return all(0 <= o["value"] < (1 << 64) for o in d["outs"])
 
 
-def defects(d, MAX):
+def _cs(n):
+    """bytes of the compact-size encoding of n (protocol documentation: 1 below 0xfd, then 3 / 5 / 9)"""
+    return 1 if n < 0xfd else 3 if n <= 0xffff else 5 if n <= 0xffffffff else 9
+
+
+def sizes(d):
+    """(witness-stripped size, total size) of the wire form, added up field by field from the protocol documentation / BIP144:
+    4 version, count, per input 32+4+script+4, count, per output 8+script, 4 lock time; with any non-empty witness stack 2 more bytes
+    (marker, flag) and one stack per input. Cross-checked against the byte-producing reference (refs/txser.py) in selftest() and,
+    at run time, for every transaction within 64 bytes of the limit."""
+    ins, outs = d["ins"], d["outs"]
+    base = 8 + _cs(len(ins)) + _cs(len(outs)) + 40 * len(ins) + 8 * len(outs)
+    for i in ins:
+        n = len(i["script"])
+        base += n + (1 if n < 0xfd else _cs(n))
+    for o in outs:
+        n = len(o["script"])
+        base += n + (1 if n < 0xfd else _cs(n))
+    total = base
+    if any(i["witness"] for i in ins):
+        total += 2
+        for i in ins:
+            w = i["witness"]
+            total += _cs(len(w))
+            for it in w:
+                total += len(it) + _cs(len(it))
+    for sz, ww in ((base, False), (total, True)):
+        if abs(sz - LIMIT) <= 64 and serialisable(d):
+            assert len(R.serialize(d, with_witness=ww)) == sz, "size arithmetic disagrees with the reference serialisation"
+    return base, total
+
+
+def defects(d, MAX, stripped_size=None):
     out = []
     if not d["ins"]:
         out.append("no_inputs")
@@ -123,7 +163,7 @@ def defects(d, MAX):
             out.append("coinbase_script_size")
     elif NULL in pts:
         out.append("null_outpoint_in_non_coinbase")
-    if serialisable(d) and len(R.serialize(d, with_witness=False)) > LIMIT:
+    if serialisable(d) and (sizes(d)[0] if stripped_size is None else stripped_size) > LIMIT:
         out.append("stripped_size_over_limit")
     return out
 
@@ -176,6 +216,33 @@ def selftest(rec):
         n += 3
     assert defects(G.simple_tx(value=MAXES["BTC"] + 1), MAXES["GRS"]) == []
     out["predicate_laws"] = 30 + n
+    # the size arithmetic against the byte-producing reference: every compact-size boundary on every length / count, and random transactions
+    import random
+    rng = random.Random(20)
+    q = 0
+    for t in [t for _, t in G.boundary_sweep()] + [G.rand_tx(rng, p_count_edge=0.1) for _ in range(250)]:
+        if serialisable(t):
+            assert sizes(t) == (len(R.serialize(t, with_witness=False)), len(R.serialize(t))), t
+            q += 1
+    assert [_cs(n) for n in (0, 252, 253, 0xffff, 0x10000, 0xffffffff, 1 << 32)] == [len(R.csize(n)) for n in (0, 252, 253, 0xffff, 0x10000, 0xffffffff, 1 << 32)]
+    out["size_laws"] = q
+    # the clause counters name what they say
+    ce = lambda net, t: clause_events(net, t, MAXES[net], defects(t, MAXES[net]), is_coinbase_ref(t), *sizes(t))
+    assert ce("BTC", G.simple_tx(value=MAX)) == ["value_MAX.accept"] and "value_MAX+1.reject" in ce("BTC", G.simple_tx(value=MAX + 1))
+    assert "GRS_above_21M_coins.accept" in ce("GRS", G.simple_tx(value=MAX + 1)) and "non_GRS_value_within_GRS_range.reject" in ce("LTC", G.simple_tx(value=MAX + 1))
+    t = G.simple_tx(n_out=3, value=MAX // 3 - 1)
+    assert "total_MAX_reached_cumulatively.accept" not in ce("BTC", t)
+    t["outs"][2]["value"] += MAX - 3 * (MAX // 3 - 1)
+    assert "total_MAX_reached_cumulatively.accept" in ce("BTC", t)
+    t["outs"][2]["value"] += 1
+    assert set(ce("BTC", t)) == {"total_MAX+1_reached_cumulatively.reject", "total_crossed_at_last_output.reject"}
+    t = G.simple_tx(n_in=4); _set_pt(t, 3, (t["ins"][0]["prev"], t["ins"][0]["index"]))
+    assert ce("BTC", t) == ["duplicate.first_and_last.reject"]
+    t = G.simple_tx(n_in=4); _set_pt(t, 2, (t["ins"][1]["prev"], t["ins"][1]["index"]))
+    assert ce("BTC", t) == ["duplicate.adjacent.reject"]
+    t = G.simple_tx(n_in=3); _set_pt(t, 1, NULL)
+    assert ce("BTC", t) == ["null_outpoint.middle.reject"]
+    assert set(CLAUSE_COUNTERS) >= set(ce("BTC", t)) and len(set(CLAUSE_COUNTERS)) == len(CLAUSE_COUNTERS)
     # the recipe builder: what the size-class / kind workloads rely on
     m = 0
     for name, base in list(KINDS.items()) + list(SIZE_KINDS.items()):
@@ -201,9 +268,9 @@ def selftest(rec):
         wellformed = label.startswith(("inputs=", "outputs="))
         assert (defects(d, MAXES["GRS"]) == []) == wellformed and (defects(d, MAX) == []) == wellformed, label
         m += 1
-    for kd in KINDS:
+    for kd, light in [(kd, kd.startswith("many")) for kd in KINDS] + [(kd, True) for kd in KINDS if not kd.startswith("many") and kd != "coinbase_manyout"]:
         seen = set()
-        for label, rc in kind_recipes(kd, MAX, light=kd.startswith("many")):
+        for label, rc in kind_recipes(kd, MAX, light=light):
             d, alias = big_tx(rc)
             seen.update(defects(d, MAX) or ["none"])
             for t in TARGETS:
@@ -271,9 +338,10 @@ def _quiet(fn, *a, **kw):
 
 def _snapshot(tx, full=True):
     """everything a caller can read off the transaction: the two serialisations, both ids, identity and order of the three
-    containers and of their elements, every field of every element"""
+    containers and of their elements, every field of every element. full="noids": without id() / w_id(); full=False: also
+    without the witness-stripped serialisation"""
     uns = tx.unspents
-    small = full and len(tx.txs_in) + len(tx.txs_out) <= 3000
+    small = full is True and len(tx.txs_in) + len(tx.txs_out) <= 3000
     return {"fields": G.from_pycoin(tx), "in_ids": [id(t) for t in tx.txs_in], "out_ids": [id(t) for t in tx.txs_out],
             "lists": (id(tx.txs_in), id(tx.txs_out)),
             "unspents": None if uns is None else [None if u is None else (u.coin_value, bytes(u.script)) for u in uns],
@@ -321,24 +389,121 @@ def _make(T, d, via):
     return G.to_pycoin(T, d, witness_via=via), via
 
 
-def _check_one(net, T, d, rec, label=None, with_unspents=False, case=None, alias=(), second=False, full_snapshot=True, via="attr"):
+BTC_MAX = 21_000_000 * COIN
+
+
+def clause_events(net, d, MAX, dfx, cb, stripped, total):
+    """names of the statement's boundaries / quantifier items this transaction sits on, when that boundary alone decides the verdict
+    (evidence that each one was reached; every name listed in CLAUSE_COUNTERS is required to be non-zero)"""
+    ev = []
+    vals = [o["value"] for o in d["outs"]]
+    n_in = len(d["ins"])
+    pts = [(i["prev"], i["index"]) for i in d["ins"]]
+    if not dfx:
+        if total is None or total > LIMIT:
+            return ev
+        if 0 in vals:
+            ev.append("value_0.accept")
+        if MAX in vals:
+            ev.append("value_MAX.accept")
+        if len(vals) >= 2 and sum(vals) == MAX and max(vals) < MAX:
+            ev.append("total_MAX_reached_cumulatively.accept")
+        if net == "GRS" and vals and sum(vals) > BTC_MAX:
+            ev.append("GRS_above_21M_coins.accept")
+        if cb and len(d["ins"][0]["script"]) in (2, 100):
+            ev.append("coinbase_script_%d.accept" % len(d["ins"][0]["script"]))
+        if zero_hash_non_null(d) or any(p != G.NULL_HASH and x == G.NULL_INDEX for p, x in pts):
+            ev.append("near_null_outpoint.accept")
+        if n_in >= 2 and len({p for p, _ in pts}) < n_in:
+            ev.append("same_previous_tx_other_output.accept")
+        if total == LIMIT:
+            ev.append("total_size_LIMIT.accept")
+        if stripped == LIMIT:
+            ev.append("stripped_size_LIMIT.accept")
+        return ev
+    if len(dfx) > 1:
+        return ev
+    df = dfx[0]
+    if df == "value_out_of_range":
+        bad = [v for v in vals if v < 0 or v > MAX]
+        if bad == [MAX + 1]:
+            ev.append("value_MAX+1.reject")
+        if bad == [-1]:
+            ev.append("value_-1.reject")
+        if net != "GRS" and len(bad) == 1 and BTC_MAX < bad[0] <= MAXES["GRS"]:
+            ev.append("non_GRS_value_within_GRS_range.reject")
+    elif df == "total_out_of_range":
+        if sum(vals) == MAX + 1:
+            ev.append("total_MAX+1_reached_cumulatively.reject")
+        if sum(vals[:-1]) <= MAX:
+            ev.append("total_crossed_at_last_output.reject")
+        else:
+            ev.append("total_crossed_before_last_output.reject")
+    elif df == "coinbase_script_size":
+        if len(d["ins"][0]["script"]) in (1, 101):
+            ev.append("coinbase_script_%d.reject" % len(d["ins"][0]["script"]))
+    elif df == "duplicate_outpoint":
+        first = {}
+        for k, pt in enumerate(pts):
+            if pt in first:
+                a = first[pt]
+                ev.append("duplicate.adjacent.reject" if k == a + 1 else "duplicate.first_and_last.reject" if (a, k) == (0, n_in - 1)
+                          else "duplicate.apart.reject")
+                break
+            first[pt] = k
+    elif df == "null_outpoint_in_non_coinbase":
+        k = pts.index(NULL)
+        ev.append("null_outpoint.%s.reject" % ("first" if k == 0 else "last" if k == n_in - 1 else "middle"))
+    elif df == "stripped_size_over_limit":
+        if stripped == LIMIT + 1:
+            ev.append("stripped_size_LIMIT+1.reject")
+            if total > stripped:
+                ev.append("stripped_size_LIMIT+1_with_witness.reject")
+        if cb:
+            ev.append("coinbase_over_size.reject")
+    return ev
+
+
+CLAUSE_COUNTERS = ["value_0.accept", "value_MAX.accept", "total_MAX_reached_cumulatively.accept", "GRS_above_21M_coins.accept",
+                   "coinbase_script_2.accept", "coinbase_script_100.accept", "near_null_outpoint.accept", "same_previous_tx_other_output.accept",
+                   "total_size_LIMIT.accept", "stripped_size_LIMIT.accept", "value_MAX+1.reject", "value_-1.reject",
+                   "non_GRS_value_within_GRS_range.reject", "total_MAX+1_reached_cumulatively.reject", "total_crossed_at_last_output.reject",
+                   "total_crossed_before_last_output.reject", "coinbase_script_1.reject", "coinbase_script_101.reject",
+                   "duplicate.adjacent.reject", "duplicate.first_and_last.reject", "duplicate.apart.reject", "null_outpoint.first.reject",
+                   "null_outpoint.middle.reject", "null_outpoint.last.reject", "stripped_size_LIMIT+1.reject",
+                   "stripped_size_LIMIT+1_with_witness.reject", "coinbase_over_size.reject"]
+DEFECT_NAMES = ["no_inputs", "no_outputs", "value_out_of_range", "total_out_of_range", "duplicate_outpoint", "coinbase_script_size",
+                "null_outpoint_in_non_coinbase", "stripped_size_over_limit"]
+
+
+def _size_class(d):
+    n = max(len(d["ins"]), len(d["outs"]))
+    return "le_2" if n <= 2 else "3..251" if n < 252 else "252..254" if n <= 254 else "255..1000" if n <= 1000 else "1001..2000" if n <= 2000 else "gt_2000"
+
+
+def _check_one(net, T, d, rec, label=None, with_unspents=False, case=None, alias=(), second=False, full_snapshot=True, via="attr", cell=None):
     """d: the dict the transaction is built from. case: what is stored for replay (default: the packed dict). alias: pairs (a, b) of
     input positions holding the SAME TxIn object (d must list equal entries there). with_unspents: False / True ("full") / "short" / "holes".
-    second: run check() a second time on the same object and demand the same verdict and still no modification."""
+    second: run check() a second time on the same object and demand the same verdict and still no modification.
+    cell: name of the KIND when the case belongs to the defect x kind matrix (counted per cell once check() has been judged)"""
     MAX = MAXES[net]
     if case is None:
         case = {"net": net, "tx": G.pack(d)}
         if label:
             case["label"] = label
-    dfx = defects(d, MAX)
+    ser = serialisable(d)
+    stripped_size, total_size = sizes(d) if ser else (None, None)
+    dfx = defects(d, MAX, stripped_size)
     cb = is_coinbase_ref(d)
-    total_size = len(R.serialize(d)) if serialisable(d) else None
     nontrivial = bool(dfx) or bool(label) or G.on_boundary(d)
     rec.case((net, tuple(dfx), G.shape(d), tuple((i["prev"] == G.NULL_HASH, i["index"] == G.NULL_INDEX) for i in d["ins"][:8]),
               total_size if (total_size or 0) > 900000 else 0, label if "recipe" in case else None), nontrivial=nontrivial)
     st, tx = observe(_make, T, d, via)
     if st != "ok":
-        rec.violation("construct.raises", case, tx, "object")
+        # the statement is about transactions that exist: a constructor refusing to build one says nothing about check().
+        # Counted; the per-clause counters below go to zero (-> inconclusive) if that made a clause unreachable.
+        rec.ev("construct.refused")
+        rec.ev("construct.refused." + (dfx[0] if dfx else "wellformed"))
         return
     tx, via = tx
     rec.ev("made_via." + via)
@@ -346,8 +511,10 @@ def _check_one(net, T, d, rec, label=None, with_unspents=False, case=None, alias
         case = dict(case, via=via)
     for a, b in alias:
         tx.txs_in[b] = tx.txs_in[a]
+        rec.ev("same_input_object_twice")
     if with_unspents and d["ins"]:
         _attach_unspents(T, tx, "full" if with_unspents is True else with_unspents)
+        rec.ev("unspents." + ("full" if with_unspents is True else with_unspents))
     # coinbase detection
     rec.ev("Tx.is_coinbase")
     st, ic = observe(tx.is_coinbase)
@@ -363,19 +530,30 @@ def _check_one(net, T, d, rec, label=None, with_unspents=False, case=None, alias
     rec.ev("Tx.check")
     st, r = observe(tx.check)
     after = _snapshot(tx, full_snapshot)
+    path = "returning" if st == "ok" else "raising"
     rec.ev("check.returned" if st == "ok" else "check.raised")
     if st != "ok":
         rec.ev("check.raised." + type(r).__name__)
     diff = _snap_diff(before, after)
-    rec.ev("purity_snapshot." + ("returning" if st == "ok" else "raising"))
+    rec.ev("purity_snapshot." + path)
+    rec.ev("purity_snapshot.%s.elements_%s" % (path, _size_class(d)))
     if diff:
-        rec.violation("check.mutates_tx.%s_path" % ("returning" if st == "ok" else "raising"), case, diff, "unchanged")
+        rec.violation("check.mutates_tx.%s_path" % path, case, diff, "unchanged")
+    decided_accept = not dfx and total_size is not None and total_size <= LIMIT
+    if cell:
+        for x in dfx or ["none"]:
+            rec.ev("matrix.%s.%s" % (cell, x))
+    for name in clause_events(net, d, MAX, dfx, cb, stripped_size, total_size):
+        rec.ev("clause." + name)
     if dfx:
         rec.ev("expected_reject." + dfx[0])
+        for x in dfx[1:]:
+            rec.ev("expected_reject(also)." + x)
         if st == "ok":
             rec.violation("check.accepts_defective." + (dfx[0] if len(dfx) == 1 else "multiple"), dict(case, defects=dfx), "returned", "raise")
-    elif total_size is not None and total_size <= LIMIT:
+    elif decided_accept:
         rec.ev("expected_accept")
+        rec.ev("expected_accept." + net)
         if total_size >= LIMIT - 1:
             rec.ev("expected_accept.at_size_limit")
         if st != "ok":
@@ -391,17 +569,23 @@ def _check_one(net, T, d, rec, label=None, with_unspents=False, case=None, alias
         st2, r2 = observe(tx.check)
         if dfx and st2 == "ok":
             rec.violation("check.second_call.accepts_defective", dict(case, defects=dfx), "returned", "raise")
-        elif not dfx and total_size is not None and total_size <= LIMIT and st2 != "ok" and not zero_hash_non_null(d):
-            rec.violation("check.second_call.rejects_wellformed", case, r2, "return")
+        elif decided_accept and st2 != "ok":
+            rec.violation("null_outpoint.index_ignored" if zero_hash_non_null(d) else "check.second_call.rejects_wellformed",
+                          dict(case, api="check(second)"), r2, "return")
         diff = _snap_diff(before, _snapshot(tx, full_snapshot))
         if diff:
             rec.violation("check.mutates_tx.second_call", case, diff, "unchanged")
-    # a coinbase is never counted as having unsigned inputs
+    # a coinbase is never counted as having unsigned inputs (however the count is asked for)
     if cb:
         rec.ev("Tx.bad_solution_count(coinbase)")
         st_, n = observe(tx.bad_solution_count)
         if st_ != "ok" or n != 0:
             rec.violation("coinbase.counted_as_unsigned", case, n, 0)
+        if second or label:
+            rec.ev("Tx.bad_solution_count(coinbase, flags=)")
+            st_, n = observe(tx.bad_solution_count, flags=0)
+            if st_ != "ok" or n != 0:
+                rec.violation("coinbase.counted_as_unsigned", dict(case, api="bad_solution_count(flags=0)"), n, 0)
     return st
 
 
@@ -856,17 +1040,18 @@ def size_kind_recipes(kind):
             yield "total=%d" % tgt, _rc(base, [["pad", tgt, 0, where[0], where[1]]])
 
 
-def _run_recipe(net, T, rc, rec, label, unspents=False, second=False, via="attr"):
+def _run_recipe(net, T, rc, rec, label, unspents=False, second=False, via="attr", cell=None, full_snapshot=True):
     d, alias = big_tx(rc)
     case = {"net": net, "label": label, "recipe": rc, "unspents": unspents or None, "second": bool(second)}
-    return _check_one(net, T, d, rec, label=label, with_unspents=unspents, case=case, alias=alias, second=second, via=via)
+    return _check_one(net, T, d, rec, label=label, with_unspents=unspents, case=case, alias=alias, second=second, via=via, cell=cell,
+                      full_snapshot=full_snapshot)
 
 
 # ---------------------------------------------------------------------------------------------
 # one big live object, edited in place one field at a time between check() calls
 
 LIVE_OPS = ["dup", "null", "alias_append", "swap", "sort", "reverse", "value_hi", "value_neg", "big_out_script", "witness", "relist",
-            "pop_out_all", "unspents_short", "coinbase_first"]
+            "pop_out_all", "unspents_short", "coinbase_first", "hash_zero", "index_only"]
 
 
 def _apply_live(T, tx, op, MAX):
@@ -889,6 +1074,20 @@ def _apply_live(T, tx, op, MAX):
 
         def undo():
             ins[b].previous_hash, ins[b].previous_index, ins[b].script = old
+    elif name == "hash_zero":          # only the hash of one input (its index stays): a near-null outpoint, not a defect
+        b = op[1] % len(ins)
+        old = ins[b].previous_hash
+        ins[b].previous_hash = G.NULL_HASH
+
+        def undo():
+            ins[b].previous_hash = old
+    elif name == "index_only":         # only the index of one input (makes the null outpoint out of a zero-hash one, or unmakes it)
+        b = op[1] % len(ins)
+        old = ins[b].previous_index
+        ins[b].previous_index = op[2]
+
+        def undo():
+            ins[b].previous_index = old
     elif name == "alias_append":
         ins.append(ins[op[1] % len(ins)])
 
@@ -961,7 +1160,8 @@ def big_history(net, T, rc, ops, rec, unspents="full"):
     _attach_unspents(T, tx, unspents)
     done = []
     case = {"net": net, "live": {"recipe": rc, "unspents": unspents, "ops": done}}
-    _judge_live(net, T, tx, rec, ["build"], case=case)
+    state = {}
+    _judge_live(net, T, tx, rec, ["build"], case=case, state=state)
     undo = None
     for op in ops:
         if op[0] == "undo":
@@ -972,7 +1172,7 @@ def big_history(net, T, rc, ops, rec, unspents="full"):
         else:
             undo = _apply_live(T, tx, op, MAX)
         done.append(list(op))
-        _judge_live(net, T, tx, rec, ["n_in=%d" % rc["n_in"]] + [o[0] for o in done[-3:]], case=case)
+        _judge_live(net, T, tx, rec, ["n_in=%d" % rc["n_in"]] + [o[0] for o in done[-3:]], case=case, state=state)
 
 
 def _rand_live_ops(rng, n_in, n_steps):
@@ -988,6 +1188,13 @@ def _rand_live_ops(rng, n_in, n_steps):
             ops.append([name, rng.randrange(3), rng.choice([LIMIT, 2000, LIMIT - n_in * 150])])
         elif name in ("sort", "reverse", "relist", "pop_out_all", "unspents_short", "coinbase_first"):
             ops.append([name])
+        elif name == "hash_zero":
+            # three edits of ONE input: hash only, then index only (now the null outpoint), then index only again
+            b = rng.randrange(n_in)
+            ops += [[name, b], ["index_only", b, G.NULL_INDEX], ["index_only", b, rng.choice([0, 0xfffffffe, 3])]]
+            continue
+        elif name == "index_only":
+            ops.append([name, rng.randrange(n_in), rng.choice([G.NULL_INDEX, 0, 77])])
         else:
             ops.append([name, rng.randrange(n_in)])
         if name not in ("sort", "reverse", "relist", "swap") or rng.random() < 0.3:
@@ -995,8 +1202,19 @@ def _rand_live_ops(rng, n_in, n_steps):
     return ops
 
 
+def _rand_count(rng, lo):
+    """element counts of the random workload: mostly a handful; 240..300 (around the compact-size boundary of the count) in about
+    1.5 % of the draws - the SIZE classes and KINDS workloads are where large transactions are covered systematically"""
+    r = rng.random()
+    if r < 0.005:
+        return rng.choice(G.COUNT_EDGES[2:])
+    if r < 0.015:
+        return rng.randrange(240, 270)
+    return max(lo, rng.choice([0, 1, 1, 1, 2, 2, 3, 4, 5, 8, rng.randrange(0, 20)]))
+
+
 def _wellformed_random(rng, MAX):
-    d = G.rand_tx(rng, distinct_outpoints=True, p_count_edge=0.01)
+    d = G.rand_tx(rng, n_in=_rand_count(rng, 1), n_out=_rand_count(rng, 0), distinct_outpoints=True)
     if not d["outs"]:
         d["outs"] = [{"value": 1, "script": b""}]
     left = MAX
@@ -1068,12 +1286,14 @@ def _inject(d, kind, rng, MAX):
     return d
 
 
-def _judge_live(net, T, tx, rec, hist, case=None):
-    """check() on a live object against the defect predicate of its CURRENT fields, with before/after snapshots"""
+def _judge_live(net, T, tx, rec, hist, case=None, state=None):
+    """check() on a live object against the defect predicate of its CURRENT fields, with before/after snapshots.
+    state: dict kept by the caller for one object; used to count verdict changes along the history"""
     d = G.from_pycoin(tx)
     MAX = MAXES[net]
-    dfx = defects(d, MAX)
-    total_size = len(R.serialize(d)) if serialisable(d) else None
+    ser = serialisable(d)
+    stripped_size, total_size = sizes(d) if ser else (None, None)
+    dfx = defects(d, MAX, stripped_size)
     before = _snapshot(tx)
     rec.ev("Tx.check(history)")
     st, r = observe(tx.check)
@@ -1081,19 +1301,39 @@ def _judge_live(net, T, tx, rec, hist, case=None):
     if case is None:
         case = {"net": net, "history": list(hist), "final_shape": [len(d["ins"]), len(d["outs"]), total_size]}
     rec.case((net, "hist", tuple(hist[-6:]), tuple(dfx), total_size if (total_size or 0) > 900000 else 0))
-    rec.ev("purity_snapshot(history)." + ("returning" if st == "ok" else "raising"))
+    path = "returning" if st == "ok" else "raising"
+    rec.ev("purity_snapshot(history)." + path)
+    rec.ev("purity_snapshot(history).%s.elements_%s" % (path, _size_class(d)))
     if diff:
-        rec.violation("history.check_mutates_tx.%s_path" % ("returning" if st == "ok" else "raising"), case, diff, "unchanged")
+        rec.violation("history.check_mutates_tx.%s_path" % path, case, diff, "unchanged")
+    want = None
     if dfx:
+        want = "reject"
+        rec.ev("history.expected_reject." + dfx[0])
         if st == "ok":
             rec.violation("history.check_accepts_defective." + dfx[0], dict(case, defects=dfx), "returned", "raise")
     elif total_size is not None and total_size <= LIMIT:
-        if st != "ok" and not zero_hash_non_null(d):
-            rec.violation("history.check_rejects_wellformed", case, r, "return")
+        want = "accept"
+        rec.ev("history.expected_accept")
+        if zero_hash_non_null(d):
+            rec.ev("history.expected_accept.zero_hash_non_null")
+        if st != "ok":
+            # (the key of F20-a when the zero-hash-but-not-null outpoint is what is left of an edit; same root cause)
+            rec.violation("null_outpoint.index_ignored" if zero_hash_non_null(d) else "history.check_rejects_wellformed",
+                          dict(case, api="check(history)"), r, "return")
+    else:
+        rec.ev("history.undecided")
+    if state is not None:
+        prev = state.get("want")
+        if prev and want and prev != want:
+            rec.ev("history.expected_verdict_changes.%s_to_%s" % (prev, want))
+        if want == "reject" and state.get("defect") not in (None, dfx[0]) and prev == "reject":
+            rec.ev("history.expected_defect_changes")
+        state["want"], state["defect"] = want, (dfx[0] if dfx else None)
 
 
 SMALL_OPS = ["grow_script", "shrink_script", "add_out", "pop_out", "value_hi", "value_ok", "dup_in", "undup_in", "null_in", "unnull_in", "big_witness",
-             "grow_out_script"]
+             "grow_out_script", "zero_hash_in", "index_in", "index_in"]
 
 
 def _pick_small_op(rng, tx, MAX):
@@ -1113,8 +1353,10 @@ def _pick_small_op(rng, tx, MAX):
         return [e, rng.choice([MAX + 1, MAX, -1])]
     if e == "value_ok":
         return [e, [rng.choice([0, 1, 1000]) for _ in tx.txs_out]]
-    if e in ("dup_in", "null_in"):
+    if e in ("dup_in", "null_in", "zero_hash_in"):
         return [e, rng.randrange(len(tx.txs_in))]
+    if e == "index_in":
+        return [e, rng.randrange(len(tx.txs_in)), rng.choice([G.NULL_INDEX, G.NULL_INDEX, 0, 0xfffffffe, 7])]
     if e == "undup_in":
         return [e] if len(tx.txs_in) > 1 else None
     if e == "big_witness":
@@ -1144,6 +1386,10 @@ def _apply_small(T, tx, op):
         tx.txs_in.pop()
     elif e == "null_in":
         tx.txs_in[op[1]].previous_hash, tx.txs_in[op[1]].previous_index = G.NULL_HASH, G.NULL_INDEX
+    elif e == "zero_hash_in":      # only the hash: (0..0, whatever index the input had)
+        tx.txs_in[op[1]].previous_hash = G.NULL_HASH
+    elif e == "index_in":          # only the index
+        tx.txs_in[op[1]].previous_index = op[2]
     elif e == "unnull_in":
         for k, ti in enumerate(tx.txs_in):
             if ti.previous_hash == G.NULL_HASH:
@@ -1161,7 +1407,8 @@ def small_history(net, T, d, steps, rec, rng=None, n_steps=0):
     tx = G.to_pycoin(T, d)
     done = []
     case = {"net": net, "start": G.pack(d), "steps": done}
-    _judge_live(net, T, tx, rec, [], case=case)
+    state = {}
+    _judge_live(net, T, tx, rec, [], case=case, state=state)
     todo = [list(op) for op in steps]
     for k in range(len(todo) + n_steps):
         op = todo[k] if k < len(todo) else _pick_small_op(rng, tx, MAX)
@@ -1169,11 +1416,29 @@ def small_history(net, T, d, steps, rec, rng=None, n_steps=0):
             continue
         _apply_small(T, tx, op)
         done.append(op)
-        _judge_live(net, T, tx, rec, [o[0] for o in done], case=case)
+        _judge_live(net, T, tx, rec, [o[0] for o in done], case=case, state=state)
+
+
+def scripted_histories(MAX):
+    """fixed edit sequences on one live object: every defect class appears and disappears again, the null outpoint is made and unmade
+    by editing only the index resp. only the hash of an input, a coinbase's script moves over both length limits; yields (start, steps)"""
+    yield G.simple_tx(n_in=2, n_out=2, script_len=3), [
+        ["null_in", 0], ["index_in", 0, 0], ["index_in", 0, G.NULL_INDEX], ["index_in", 0, 0xfffffffe], ["unnull_in"],
+        ["zero_hash_in", 1], ["index_in", 1, G.NULL_INDEX], ["index_in", 1, 7], ["index_in", 0, 7], ["zero_hash_in", 0], ["unnull_in"],
+        ["dup_in", 0], ["undup_in"], ["value_hi", MAX + 1], ["value_hi", MAX], ["add_out", 1], ["pop_out"], ["value_ok", [MAX - 1, 1]],
+        ["value_ok", [MAX, 1]], ["value_ok", [0, 0]], ["pop_out"], ["pop_out"], ["add_out", 5],
+        ["grow_script", LIMIT + 10], ["shrink_script", 5], ["big_witness", LIMIT], ["big_witness", 10], ["grow_out_script", LIMIT + 1],
+        ["grow_out_script", 4]]
+    yield G.simple_tx(n_in=1, n_out=1, script_len=0), [
+        ["null_in", 0], ["shrink_script", 2], ["shrink_script", 1], ["shrink_script", 100], ["shrink_script", 101], ["shrink_script", 50],
+        ["index_in", 0, 0], ["shrink_script", 101], ["index_in", 0, G.NULL_INDEX], ["shrink_script", 100], ["grow_out_script", LIMIT + 1],
+        ["grow_out_script", 0], ["dup_in", 0], ["undup_in"], ["undup_in"]]
 
 
 def history_cases(net, T, rng, rec, n):
     MAX = MAXES[net]
+    for d, steps in scripted_histories(MAX):
+        small_history(net, T, d, steps, rec)
     for _ in range(n):
         d = _wellformed_random(rng, MAX)
         if not d["ins"] or not d["outs"]:
@@ -1188,7 +1453,13 @@ def run_shard(spec, rec):
         rec.require("Tx.check", "Tx.is_coinbase", "purity_snapshot.returning", "purity_snapshot.raising", "expected_accept")
     if kind == "sweep":
         net = spec["net"]
-        rec.require("Tx.bad_solution_count(coinbase)")
+        # one counter per clause of the statement / item of its quantifier (requirements are merged over the shards of a run)
+        rec.require("Tx.bad_solution_count(coinbase)", "Tx.bad_solution_count(coinbase, flags=)", "Tx.check(second)", "expected_accept." + net,
+                    "same_input_object_twice", "unspents.full", "unspents.holes", "unspents.short",
+                    "made_via.attr", "made_via.from_bin", "made_via.tuple", "made_via.set_witness", "undecided.stripped_le_limit_lt_total")
+        rec.require(*["expected_reject." + x for x in DEFECT_NAMES])
+        # (value -1 is not among the quantifier's boundary values and a library may refuse to build such an output at all: counted, not required)
+        rec.require(*["clause." + x for x in CLAUSE_COUNTERS if x != "value_-1.reject"])
         k = 0
         for label, d in sweep(net):
             _check_one(net, nets[net], d, rec, label=label, with_unspents=(k % 3 == 0))
@@ -1204,7 +1475,9 @@ def run_shard(spec, rec):
         return
     rng = shard_rng(spec["seed"], PROPERTY, spec["tier"], spec["shard"])
     if kind == "sizeclass":
-        rec.require("purity_snapshot.raising", "purity_snapshot.returning")
+        for c in spec["classes"]:
+            cls = _size_class({"ins": [0] * c, "outs": []})
+            rec.require("purity_snapshot.raising.elements_" + cls, "purity_snapshot.returning.elements_" + cls)
         if min(spec["classes"]) <= 2000:
             rec.require("Tx.check(second)")
         k = rng.randrange(len(NETS))
@@ -1218,10 +1491,15 @@ def run_shard(spec, rec):
     if kind == "kinds":
         for kd, net, light in spec["jobs"]:
             k = 0
+            # the defect x kind matrix: every cell must have been judged (and not refused at construction)
+            for x in ["none"] + [x for x in DEFECT_NAMES if x != "coinbase_script_size" or KINDS[kd].get("coinbase")]:
+                rec.require("matrix.%s.%s" % (kd, x))
             for label, rc in kind_recipes(kd, MAXES[net], light=light):
                 k += 1
+                # (id() / w_id() of the kinds with a thousand elements: on every fourth case; the SIZE classes take them always)
                 _run_recipe(net, nets[net], rc, rec, kd + ": " + label, unspents=("full", False, "holes")[k % 3], second=(k % 4 == 0),
-                            via=("attr", "from_bin", "attr", "tuple", "attr")[k % 5])
+                            via=("attr", "from_bin", "attr", "tuple", "attr")[k % 5], cell=kd,
+                            full_snapshot=True if (k % 4 == 1 or not kd.startswith(("many", "coinbase_many"))) else "noids")
         return
     if kind == "sizekinds":
         rec.require("expected_accept.at_size_limit", "expected_reject.stripped_size_over_limit")
@@ -1233,15 +1511,23 @@ def run_shard(spec, rec):
         return
     if kind == "bighist":
         rec.require("Tx.check(history)", "purity_snapshot(history).returning", "purity_snapshot(history).raising")
+        for c in spec["sizes"]:
+            cls = _size_class({"ins": [0] * c, "outs": []})
+            rec.require("purity_snapshot(history).raising.elements_" + cls, "purity_snapshot(history).returning.elements_" + cls)
         for j, n_in in enumerate(spec["sizes"]):
             steps = spec["steps"][j]
             net = NETS[(j + rng.randrange(5)) % len(NETS)]
             rc = {"n_in": n_in, "n_out": 3, "order": rng.choice(["rand", "rand", "asc", "desc"]), "wit": rng.choice(["none", "odd", "last"]),
                   "tag": rng.randrange(10 ** 6)}
-            big_history(net, nets[net], rc, _rand_live_ops(rng, n_in, steps), rec, unspents=rng.choice(["full", "full", "holes", False]))
+            # (one edit with a known verdict and its undo first, so that both paths are certain to be seen at every size)
+            big_history(net, nets[net], rc, [["dup", 0, n_in - 1], ["undo"]] + _rand_live_ops(rng, n_in, steps), rec,
+                        unspents=rng.choice(["full", "full", "holes", False]))
         return
     if kind == "history":
-        rec.require("Tx.check(history)")
+        rec.require("Tx.check(history)", "history.expected_accept", "history.expected_accept.zero_hash_non_null",
+                    "history.expected_verdict_changes.accept_to_reject", "history.expected_verdict_changes.reject_to_accept",
+                    "history.expected_defect_changes")
+        rec.require(*["history.expected_reject." + x for x in DEFECT_NAMES])
         for net in ("BTC", "GRS", "LTC"):
             history_cases(net, nets[net], rng, rec, spec["n"])
         return
